@@ -61,6 +61,7 @@ class Tower:
         self.elem = {}
         self.atom_of_gen = {i: a for i, a in enumerate(self.atom_terms)}
         self.one = self.R(1)
+        self.fatoms = []
         import random as _random
 
         rr = _random.Random(len(self.atom_terms) * 7919 + 13)
@@ -320,6 +321,17 @@ class Tower:
                 el[t.id] = self._new_radical(t, el[t.args[0].id])
             elif op == "f":
                 gi = self.gidx[t.id]
+                # congruence: f(a) and f(b) are the same generator when a and b have the same normal form
+                argel = [el[a.id] for a in t.args[1:]]
+                alias = None
+                for (nm, other_args, ogi) in self.fatoms:
+                    if nm == t.args[0] and len(other_args) == len(argel) and all(self.equal(x, y) for x, y in zip(argel, other_args)):
+                        alias = ogi
+                        break
+                if alias is not None:
+                    el[t.id] = El(self.gens[alias], {}, 1)
+                    continue
+                self.fatoms.append((t.args[0], argel, gi))
                 el[t.id] = El(self.gens[gi], {}, 1)
                 if t.args[0] == "sinu":
                     c = tm.fn("cosu", t.args[1])
